@@ -723,3 +723,84 @@ func ImpliedByNilError(call *ssa.Call) []Cond {
 	}
 	return out
 }
+
+// StructTable reads a slice literal of structs ([]struct{...}{{a, b}, ...}):
+// one map field-index -> value per element, in index order.  ok is false if
+// v is not such a literal.
+func StructTable(v ssa.Value) (rows []map[int]ssa.Value, ok bool) {
+	sl, isSl := Origin(v).(*ssa.Slice)
+	if !isSl || sl.Low != nil || sl.High != nil {
+		return nil, false
+	}
+	al, isAl := sl.X.(*ssa.Alloc)
+	if !isAl || al.Referrers() == nil {
+		return nil, false
+	}
+	byIdx := map[int64]map[int]ssa.Value{}
+	for _, r := range *al.Referrers() {
+		ia, isIA := r.(*ssa.IndexAddr)
+		if !isIA {
+			continue
+		}
+		k, isK := ConstInt(ia.Index)
+		if !isK || ia.Referrers() == nil {
+			return nil, false
+		}
+		collect := func(base ssa.Value) {
+			refs := base.Referrers()
+			if refs == nil {
+				return
+			}
+			for _, rr := range *refs {
+				fa, isFA := rr.(*ssa.FieldAddr)
+				if !isFA || fa.Referrers() == nil {
+					continue
+				}
+				for _, rrr := range *fa.Referrers() {
+					if st, isSt := rrr.(*ssa.Store); isSt && st.Addr == ssa.Value(fa) {
+						if byIdx[k] == nil {
+							byIdx[k] = map[int]ssa.Value{}
+						}
+						byIdx[k][fa.Field] = st.Val
+					}
+				}
+			}
+		}
+		// the element is filled in place, or copied from a local composite literal
+		collect(ia)
+		for _, rr := range *ia.Referrers() {
+			if st, isSt := rr.(*ssa.Store); isSt && st.Addr == ssa.Value(ia) {
+				if u, isU := st.Val.(*ssa.UnOp); isU {
+					if al2, isAl2 := u.X.(*ssa.Alloc); isAl2 {
+						collect(al2)
+					}
+				}
+			}
+		}
+		for _, rr := range *ia.Referrers() {
+			fa, isFA := rr.(*ssa.FieldAddr)
+			if !isFA || fa.Referrers() == nil || true {
+				continue
+			}
+			for _, rrr := range *fa.Referrers() {
+				if st, isSt := rrr.(*ssa.Store); isSt && st.Addr == ssa.Value(fa) {
+					if byIdx[k] == nil {
+						byIdx[k] = map[int]ssa.Value{}
+					}
+					byIdx[k][fa.Field] = st.Val
+				}
+			}
+		}
+	}
+	if len(byIdx) == 0 {
+		return nil, false
+	}
+	for i := int64(0); i < int64(len(byIdx)); i++ {
+		row, has := byIdx[i]
+		if !has {
+			return nil, false
+		}
+		rows = append(rows, row)
+	}
+	return rows, true
+}
